@@ -21,6 +21,7 @@ package filter
 
 import (
 	"fmt"
+	"strings"
 
 	"github.com/alecthomas/participle/v2"
 )
@@ -43,35 +44,35 @@ const MaxNesting = 1000
 // goroutine stack, which is fatal to the whole process; expressions nested
 // deeper than MaxNesting are rejected with an error instead.
 func Parse(name, text string) (*Filter, error) {
-	if err := checkNesting(text); err != nil {
+	if err := checkNesting(name, text); err != nil {
 		return nil, err
 	}
 	return Parser.ParseString(name, text)
 }
 
-func checkNesting(text string) error {
+func checkNesting(name, text string) error {
+	// count on the parser's own tokens, so that what is inside a string or a
+	// comment is decided by the same lexer the parser uses
+	lex, err := Parser.Lexer().Lex(name, strings.NewReader(text))
+	if err != nil {
+		return err
+	}
 	depth := 0
-	var quote byte
-	for i := 0; i < len(text); i++ {
-		ch := text[i]
-		switch {
-		case quote != 0:
-			if ch == '\\' && quote == '"' {
-				i++
-			} else if ch == quote {
-				quote = 0
-			}
-		case ch == '"' || ch == '`':
-			quote = ch
-		case ch == '(':
+	for {
+		tok, err := lex.Next()
+		if err != nil || tok.EOF() {
+			// lexical errors are reported by the parser
+			return nil
+		}
+		switch tok.Type {
+		case '(':
 			if depth++; depth > MaxNesting {
 				return fmt.Errorf("filter is nested deeper than %d levels", MaxNesting)
 			}
-		case ch == ')':
+		case ')':
 			if depth > 0 {
 				depth--
 			}
 		}
 	}
-	return nil
 }
